@@ -153,6 +153,10 @@ func (dc *ClientDnsConnection) QueryWithData(req commands.Request, timeout time.
 	dc.callMutex.Unlock()
 
 	if err != nil {
+		if isTimeout(err) {
+			// callers retry on exactly this value
+			return nil, smux.ErrTimeout
+		}
 		return nil, errors.WithStack(err)
 	}
 
@@ -178,6 +182,18 @@ func (dc *ClientDnsConnection) QueryWithData(req commands.Request, timeout time.
 	}
 
 	return resp, nil
+}
+
+// isTimeout recognises a timed-out exchange, however the communicator wrapped it
+func isTimeout(err error) bool {
+	cause := errors.Cause(err)
+	if cause == smux.ErrTimeout {
+		return true
+	}
+	if ne, ok := cause.(net.Error); ok && ne.Timeout() {
+		return true
+	}
+	return false
 }
 
 func (dc *ClientDnsConnection) SendEncodingTestUpstream(pattern []byte, timeout time.Duration) (*commands.TestUpstreamEncoderResponse, error) {
